@@ -31,6 +31,7 @@ import (
 	"strings"
 	"time"
 
+	"github.com/caddyserver/certmagic"
 	"github.com/quic-go/quic-go/http3"
 	"github.com/tmpim/casket"
 	"github.com/tmpim/casket/caskethttp/staticfiles"
@@ -462,9 +463,12 @@ func (s *Server) serveHTTP(w http.ResponseWriter, r *http.Request) (int, error) 
 	// sites that do not - if mismatched, close the connection;
 	// the SNI value is compared to the host name the site was
 	// looked up by (see above)
+	// a handshake without SNI is not tied to the catch-all
+	// configuration when another site answers for it
 	if !vhost.TLS.InsecureDisableSNIMatching && r.TLS != nil &&
 		vhost.TLS.ClientAuth != tls.NoClientCert &&
-		strings.ToLower(r.TLS.ServerName) != routedHost {
+		(strings.ToLower(r.TLS.ServerName) != routedHost ||
+			(r.TLS.ServerName == "" && s.handshakeWithoutSNIElsewhere(r))) {
 		r.Close = true
 		log.Printf("[ERROR] %s - strict host matching: SNI (%s) and HTTP Host (%s) values differ",
 			vhost.Addr, r.TLS.ServerName, hostname)
@@ -472,6 +476,30 @@ func (s *Server) serveHTTP(w http.ResponseWriter, r *http.Request) (int, error) 
 	}
 
 	return vhost.middlewareChain.ServeHTTP(w, r)
+}
+
+// handshakeWithoutSNIElsewhere reports whether a TLS handshake that
+// carried no server name on the connection of r may have been governed
+// by the TLS configuration of a site other than a catch-all one: for such
+// a handshake the configuration is chosen by the default server name
+// (-default-sni) or else by the local IP address of the connection,
+// before any catch-all configuration is considered (see caskettls).
+func (s *Server) handshakeWithoutSNIElsewhere(r *http.Request) bool {
+	if strings.TrimSpace(certmagic.Default.DefaultServerName) != "" {
+		return true
+	}
+	if addr, ok := r.Context().Value(http.LocalAddrContextKey).(net.Addr); ok {
+		ip, _, err := net.SplitHostPort(addr.String())
+		if err != nil {
+			ip = addr.String()
+		}
+		for _, site := range s.sites {
+			if site.TLS != nil && site.TLS.Hostname == ip {
+				return true
+			}
+		}
+	}
+	return false
 }
 
 func trimPathPrefix(u *url.URL, prefix string) *url.URL {
